@@ -82,10 +82,29 @@ def field(seed, shape, kind='complex', salt=0):
         o = [int(r.integers(0, s - hh + 1)) for s, hh in zip(shape, h)]
         a[o[0]:o[0] + h[0], o[1]:o[1] + h[1]] = r.uniform(-1, 1, h) + 1j * r.uniform(-1, 1, h)
         return a
+    # value patterns (symmetry, sparsity, sign pattern, ties) rather than shapes
+    if kind in ('even', 'hermitian'):
+        a = r.uniform(-1, 1, shape) + 1j * r.uniform(-1, 1, shape)
+        # reflection through the origin sample n//2: index i -> (2*(n//2) - i) mod n
+        iy = (2 * (shape[0] // 2) - np.arange(shape[0])) % shape[0]
+        ix = (2 * (shape[1] // 2) - np.arange(shape[1])) % shape[1]
+        refl = a[np.ix_(iy, ix)]
+        return 0.5 * (a + refl) if kind == 'even' else 0.5 * (a + np.conj(refl))
+    if kind == 'checker':
+        yy, xx = np.indices(shape)
+        return ((-1.0) ** (yy + xx)).astype(complex) * complex(r.uniform(0.5, 1), r.uniform(-1, 1))
+    if kind == 'one-row':
+        a = np.zeros(shape, dtype=complex)
+        k = int(r.integers(0, shape[0]))
+        a[k, :] = r.uniform(-1, 1, shape[1]) + 1j * r.uniform(-1, 1, shape[1])
+        return a
+    if kind == 'ties':
+        # few distinct values, many exact ties (quantised data)
+        return (r.integers(-2, 3, shape) + 1j * r.integers(-2, 3, shape)).astype(complex) + (shape[0] == 1 and shape[1] == 1)
     raise ValueError(kind)
 
 
-field_kinds = st.sampled_from(['complex', 'complex', 'real', 'impulse', 'const', 'tilt', 'embedded'])
+field_kinds = st.sampled_from(['complex', 'complex', 'complex', 'real', 'impulse', 'const', 'tilt', 'embedded', 'even', 'hermitian', 'checker', 'one-row', 'ties'])
 
 
 # ------------------------------------------------------------------------------------------------
